@@ -150,6 +150,15 @@ def programs(ctx):
                         progs.append({"shape": list(shape), "ishape": list(ish), "ops": ops + [op]})
                         nxt.append((ops + [op], r2))
                 level = nxt
+    # members that are all equal (a constant field in every ensemble member): mean and std, batched or not
+    for shape, ish in (((3,), (2,)), ((4,), (2, 3)), ((2, 3), (2,))):
+        r0 = fr.source_ref(100, shape, ish)
+        for dim in r0.dims:
+            n = r0.sizes[dim]
+            for red in ("std", "mean"):
+                for bs in sorted({0, 2, n - 1, n}):
+                    for keep in (False, True):
+                        progs.append({"shape": list(shape), "ishape": list(ish), "src_tag": 100, "ops": [[red, dim, bs, keep]]})
     return progs
 
 
@@ -174,8 +183,8 @@ def classify_exception(e, op):
 
 def run_program(prog):
     shape, ish = tuple(prog["shape"]), tuple(prog["ishape"])
-    a = fr.source_impl(0, shape, ish)
-    r = fr.source_ref(0, shape, ish)
+    a = fr.source_impl(prog.get("src_tag", 0), shape, ish)
+    r = fr.source_ref(prog.get("src_tag", 0), shape, ish)
     for k, op in enumerate(prog["ops"]):
         r_before = r
         r = fr.apply_ref(r, op, None)
